@@ -15,6 +15,7 @@ CONSTANTS
   Filts = {"none"}
   Ops = {"pub", "rem"}
   MaxJumps = 0
+  EpochCheck = TRUE
   Pres = {0, 1}
   N0s = {0, 1, 2}
   Contig = TRUE
